@@ -22,7 +22,8 @@ CLAIMS = {
  "C04": dict(
     text="Bounded model checking of the real codec code: (1) the remaining-length varint of all four codec copies for EVERY usize "
          "(round trip, len_len, reference encoder, rejection above 268435455); (2) MQTT 3.1.1 fixed-size packets: client "
-         "encode->decode round trip with size / exact-consumption clauses and broker encoder == client encoder byte for byte. "
+         "encode->decode round trip with size / exact-consumption clauses and broker encoder == client encoder byte for byte; (3) the "
+         "same for MQTT 5 PUBACK/PUBREC/PUBREL/PUBCOMP (success and failure reason), PING*, DISCONNECT without properties. "
          "NOT decided: PUBLISH and the other string-bearing packets, broker decoders, string-bearing packet round trips, MQTT 5 packet "
          "bodies (harnesses written, do not finish).",
     design="DESIGN.md sections 0, 3",
@@ -32,7 +33,9 @@ CLAIMS = {
          "with symbolic visible length and symbolic max size, against a loop-free reference header decoder: totality (no "
          "panic/overflow), never accepts an over-limit frame, asks for more bytes only while the header or declared frame is "
          "incomplete and by the exact missing count, never frames beyond the declared length (hence framing is chunking "
-         "independent). NOT decided: packet bodies.",
+         "independent); plus the MQTT 3.1.1 client decoder on complete frames of the ten fixed-size packet types with fully symbolic "
+         "bodies (never panics, consumes exactly the frame, never asks for more). NOT decided: string-bearing and MQTT 5 packet "
+         "bodies, both broker decoders' bodies (do not finish under CBMC).",
     design="DESIGN.md section 3 (C05)",
     technique="Kani/CBMC bounded model checking of the decoders' framing layer on symbolic byte buffers against a reference framing decoder"),
  "C07": dict(
@@ -67,9 +70,10 @@ CLAIMS = {
     technique="Kani/CBMC bounded model checking of handle_incoming_puback bookkeeping; syntactic guards for the async glue"),
  "C12": dict(
     text="Bounded model checking of valid_filter / valid_topic / has_wildcards of client v4, client v5 and broker against "
-         "byte-level reference validators on ALL strings of 0..=5 bytes over {a, A, /, +, #, $, e-acute}. NOT decided: matches() "
-         "(harnesses written for all length pairs up to 4x4, one 2x2 instance needs > 400 s), its multi-byte first-character "
-         "panic (reproduced natively, see DESIGN 5).",
+         "byte-level reference validators on ALL strings of 0..=5 bytes over {a, A, /, +, #, $, e-acute}; matches() of the three "
+         "copies on all topic/filter pairs of 1x1 and 2x1 bytes (quick) / up to 2x2 plus 3-copy agreement (thorough) against a "
+         "reference matcher: totality, MQTT rules on valid pairs, $-topics. Found and fixed the multi-byte first-character panic. "
+         "NOT decided: longer pairs (one 2x2 instance takes 5-10 min).",
     design="DESIGN.md section 3 (C12)",
     technique="Kani/CBMC bounded model checking of the string validators against reference validators"),
  "C13": dict(
@@ -90,8 +94,10 @@ CLAIMS = {
     technique="Kani/CBMC bounded model checking of MqttState::outgoing_ping / handle_incoming_pingresp / clean"),
  "C20": dict(
     text="Bounded model checking of From<Notification> + V4::write on a forwarded PUBLISH carrying any subset of MQTT 5 "
-         "properties (encoded without panic, properties dropped) and of Unschedule never reaching the wire. NOT decided: "
-         "decoding the frames back, the MQTT 5 encoder side, cross-listener routing (Router).",
+         "properties (encoded without panic, byte-identical to the property-less frame) and of Unschedule never reaching the wire; "
+         "router acks (PUBACK/PUBREC/PUBREL/PUBCOMP/PINGRESP) and DISCONNECTs towards an MQTT 5 link: broker encoder == client "
+         "encoder and client round trip (shared with C04). NOT decided: forwarded PUBLISH towards MQTT 5 links (properties), "
+         "CONNACK/SUBACK with properties, cross-listener routing (Router).",
     design="DESIGN.md section 3 (C20)",
     technique="Kani/CBMC bounded model checking of the 3.1.1 encoder on router notifications"),
 }
